@@ -79,6 +79,7 @@ pub fn output_tokens(
         trait_indirection: generics::TraitIndirection::Trait,
         trait_dependency_mode: &trait_dependency_mode,
         sub_attributes: &sub_attributes,
+        unsafety: out_trait.unsafety,
     }
     .gen_trait_def(
         &out_trait.vis,
@@ -90,6 +91,7 @@ pub fn output_tokens(
     )?;
 
     let trait_ident = &out_trait.ident;
+    let unsafety = &out_trait.unsafety;
     let params = out_trait.generics.impl_params_from_idents(
         generic_idents,
         generics::TakesSelfByValue(false), // BUG?
@@ -118,7 +120,7 @@ pub fn output_tokens(
         #delegation_trait_def
 
         #(#impl_sub_attributes)*
-        impl #params #trait_ident #args for #self_ty #where_clause {
+        #unsafety impl #params #trait_ident #args for #self_ty #where_clause {
             #(#method_items)*
         }
     };
@@ -184,6 +186,7 @@ fn gen_impl_delegation_trait_defs(
                 trait_indirection: generics::TraitIndirection::StaticImpl,
                 trait_dependency_mode,
                 sub_attributes: impl_sub_attributes,
+                unsafety: None,
             }
             .gen_trait_def(
                 &trait_copy.vis,
@@ -239,6 +242,7 @@ fn gen_impl_delegation_trait_defs(
                 trait_indirection: generics::TraitIndirection::DynamicImpl,
                 trait_dependency_mode,
                 sub_attributes: impl_sub_attributes,
+                unsafety: None,
             }
             .gen_trait_def(
                 &trait_copy.vis,
